@@ -190,4 +190,44 @@ def durCore (neg : Bool) (r : List Char) : Option Int :=
 def parseDuration (s : String) : Option Int :=
   durCore (splitSign s.toList).1 (splitSign s.toList).2
 
+/-! ### time.Duration.String (src/time/time.go: format, fmtFrac, fmtInt) -/
+
+/-- `fmtFrac`'s loop, building from the right: `prec` digits of `v`, trailing zeros omitted -/
+def fmtFracL : (prec : Nat) → (v : Nat) → (print : Bool) → (acc : List Char) → List Char × Nat × Bool
+  | 0, v, p, acc => (acc, v, p)
+  | prec + 1, v, p, acc =>
+    let digit := v % 10
+    let p' := p || digit != 0
+    fmtFracL prec (v / 10) p' (if p' then Nat.digitChar digit :: acc else acc)
+
+/-- `fmtFrac`: the fraction (with its point, unless it is zero) in front of `acc`, and `v / 10^prec` -/
+def fmtFrac (v prec : Nat) (acc : List Char) : List Char × Nat :=
+  let r := fmtFracL prec v false acc
+  (if r.2.2 then '.' :: r.1 else r.1, r.2.1)
+
+/-- `fmtInt` -/
+def fmtInt (v : Nat) (acc : List Char) : List Char := Nat.toDigits 10 v ++ acc
+
+/-- `time.Duration.String`; `d` in nanoseconds (`uint64(-d)` of the smallest int64 is 2^63 = its `natAbs`) -/
+def durString (d : Int) : String :=
+  let u := d.natAbs
+  let body : List Char :=
+    if u < 1000000000 then
+      if u = 0 then ['0', 's']
+      else
+        let pu : Nat × List Char :=
+          if u < 1000 then (0, ['n', 's']) else if u < 1000000 then (3, ['µ', 's']) else (6, ['m', 's'])
+        let r := fmtFrac u pu.1 pu.2
+        fmtInt r.2 r.1
+    else
+      let r := fmtFrac u 9 ['s']
+      let a := fmtInt (r.2 % 60) r.1
+      let m := r.2 / 60
+      if m > 0 then
+        let a := fmtInt (m % 60) ('m' :: a)
+        let h := m / 60
+        if h > 0 then fmtInt h ('h' :: a) else a
+      else a
+  String.ofList (if d < 0 then '-' :: body else body)
+
 end MageModel.Gen.Strconv
